@@ -233,6 +233,15 @@ def pooled(rc):
         rc.fail(fi, rets[0], "result must be (statistic, p_value, dof)")
         return
     chi, pv, dof = out
+    # both branches build their table from the OBSERVED levels only: the stratified branch uses np.unique per stratum; the unconditional branch groups the frame —
+    # with observed=False a categorical column that carries an unobserved category contributes an all-zero row and chi2_contingency raises
+    gb = [c for c in ast.walk(uncond[0][0].node) if isinstance(c, ast.Call) and call_name(c) == "groupby"]
+    for c in gb:
+        ob = kwarg(c, "observed")
+        rc.ob(f"unconditional table: {norm(c, 70)}")
+        if isinstance(ob, ast.Constant) and ob.value is False:
+            rc.fail(fi, c, "the unconditional test tabulates every declared category (observed=False): a categorical column with an unobserved category gives an all-zero row "
+                    "and scipy raises, while the stratified branch of the same function counts observed levels only", construct="unconditional table counts unobserved categories")
     un = uncond[0][1]
     if not (un[0] == chi and un[1] == pv and un[2] == dof):
         rc.fail(fi, uncond[0][0].stmt, f"unconditional test must bind (statistic, p_value, dof) = positions 0, 1, 2; found {un}")
@@ -457,6 +466,8 @@ def defuse(rc):
     _sh.defuse_rule(rc, _sh.anchor_files("C19"))
 
 MUTANTS = [
+    dict(kind="break", name="unconditional-table-counts-unobserved-categories", file=CI, expect="C19.pooled",
+         old="data.groupby([X, Y], observed=True).size().unstack(Y, fill_value=0)", new="data.groupby([X, Y], observed=False).size().unstack(Y, fill_value=0)"),
     dict(kind="break", name="pooled-pvalue-nan-at-dof-zero", file=CI, expect="C19.pooled",
          old="        p_value = 1.0 if dof == 0 else 1 - stats.chi2.cdf(chi, df=dof)", new="        p_value = 1 - stats.chi2.cdf(chi, df=dof)"),
     dict(kind="break", name="lambda-falsy-fallback", file=CI, expect="C19.lambda",
